@@ -1,4 +1,4 @@
-use crate::{ext::vec::VecExt, Error, Graph};
+use crate::{ext::vec::VecExt, Error, ErrorKind, Graph};
 use std::collections::HashSet;
 use std::fmt::Display;
 use std::hash::Hash;
@@ -120,6 +120,12 @@ where
     A: Clone + Send + Sync,
 {
     graph.ensure_undirected()?;
+    if !graph.has_node(node_name) {
+        return Err(Error {
+            kind: ErrorKind::NodeNotFound,
+            message: format!("Requested node '{}' was not found in the graph.", node_name),
+        });
+    }
     let bfs = graph.breadth_first_search(node_name);
     Ok(bfs.to_hashset())
 }
